@@ -349,7 +349,13 @@ fn hist_body(c: &HistCase, ch: &Chooser) -> Outcome {
         if let Op::Set(s, _) | Op::Clear(s) = &op {
             let target = model.current_gen(*s);
             for w in 0..watches.len() {
-                if watches[w].is_some() && target.is_some() && model.watch_gen(w) == target {
+                // an update to the very status the watcher reported last may be suppressed
+                // (nothing new to report), so only a different status or a clear must wake it
+                let same_as_reported = match &op {
+                    Op::Set(_, v) => model.last_value.get(w).copied().flatten() == Some(wire(st(*v))),
+                    _ => false,
+                };
+                if watches[w].is_some() && target.is_some() && model.watch_gen(w) == target && !same_as_reported {
                     if let Some(at) = parked_at[w] {
                         if wakers[w].0.load(std::sync::atomic::Ordering::SeqCst) == at {
                             o.violate("watch-lost-wakeup", format!("after {trace:?}: {op:?} changed the registration watch #{w} is parked on (its last poll was Pending) but its waker was never called: a task awaiting the stream would sleep forever"));
@@ -595,7 +601,7 @@ pub fn property(tier: Tier) -> Property {
     let hist = Section::new(
         "histories",
         Config::default(),
-        "cases: every operation sequence of depth 5 (thorough 7) over {set(service in {'', a}, status in 3), clear(service), check(service or a never-set name), watch(service) (<= 2 watches), next(w) = one non-blocking poll of a live watch, drop(w)} (choices cost nothing; one case per first operation; and again one level shallower with every SERVING / NOT_SERVING update made through set_serving::<S>() / set_not_serving::<S>() for NamedService types named '' and 'a'), driven through the generated HealthClient wired in-process to health_reporter()'s HealthServer with no runtime; RefHealth is stepped in lock-step on every operation: check == latest (NOT_FOUND when unset/cleared/never set); a watch's reports form an order-preserving subsequence of the statuses set for its registration from the subscription on, Pending only when nothing is unreported (or the latest status equals the one reported last) and the service is still registered, end only after a clear and after the unreported latest status; never a status that was not set; every watch is polled with its own counting waker and a watcher whose last poll was Pending must have been woken by the next update/clear of its registration (no lost wake-up). Non-trivial = the sequence polls a watch and contains an update or clear.",
+        "cases: every operation sequence of depth 5 (thorough 7) over {set(service in {'', a}, status in 3), clear(service), check(service or a never-set name), watch(service) (<= 2 watches), next(w) = one non-blocking poll of a live watch, drop(w)} (choices cost nothing; one case per first operation; and again one level shallower with every SERVING / NOT_SERVING update made through set_serving::<S>() / set_not_serving::<S>() for NamedService types named '' and 'a'), driven through the generated HealthClient wired in-process to health_reporter()'s HealthServer with no runtime; RefHealth is stepped in lock-step on every operation: check == latest (NOT_FOUND when unset/cleared/never set); a watch's reports form an order-preserving subsequence of the statuses set for its registration from the subscription on, Pending only when nothing is unreported (or the latest status equals the one reported last) and the service is still registered, end only after a clear and after the unreported latest status; never a status that was not set; every watch is polled with its own counting waker and a watcher whose last poll was Pending must have been woken by the next clear of its registration or update to a status other than the one it reported last (no lost wake-up). Non-trivial = the sequence polls a watch and contains an update or clear.",
         hcases,
         |c: &HistCase| format!("depth={} first={:?} typed_api={}", c.depth, c.first, c.typed),
         hist_body,
